@@ -48,6 +48,11 @@ let valid_types_for_negative =
   (OPrim Int8) :: ((OPrim Int16) :: ((OPrim Int32) :: ((OPrim
     Int64) :: ((OPrim Int128) :: []))))
 
+(** val valid_types_for_offset : operand_type list **)
+
+let valid_types_for_offset =
+  (OPrim Usize) :: []
+
 (** val valid_types_for_pointer : operand_type list **)
 
 let valid_types_for_pointer =
